@@ -17,6 +17,7 @@ import (
 	"runtime/debug"
 	"strconv"
 	"strings"
+	"sync"
 	"sync/atomic"
 	"time"
 
@@ -770,6 +771,7 @@ func mark(i int) {
 func main() {
 	nrand := flag.Int("random", 0, "number of random graphs (up to 5 nodes, depth 5) to exercise and log as trace events")
 	prog := flag.String("progress", "", "file that always holds the index of the vector being evaluated")
+	workers := flag.Int("workers", 1, "vectors evaluated concurrently")
 	flag.Parse()
 	debug.SetMaxStack(256 << 20) // a hash or copy that never ends dies quickly instead of eating the machine
 	if *prog != "" {
@@ -793,12 +795,27 @@ func main() {
 			}
 		}
 	}()
-	err = vio.ReadVectors(func(i int, raw json.RawMessage) error {
+	// -workers n > 1: vectors are independent (every one builds its own graphs), so they are evaluated
+	// concurrently; progress/watchdog then only say that *some* vector hangs and the orchestrator
+	// re-runs sequentially to name it.
+	type job struct {
+		i   int
+		raw json.RawMessage
+	}
+	var (
+		jobs = make(chan job, 64)
+		wg   sync.WaitGroup
+		mu   sync.Mutex
+		bad  atomic.Value
+	)
+	eval := func(j job) {
 		var v Vec
-		if err := json.Unmarshal(raw, &v); err != nil {
-			return err
+		if err := json.Unmarshal(j.raw, &v); err != nil {
+			bad.Store(fmt.Sprintf("vector %d: %v", j.i, err))
+			return
 		}
-		mark(i)
+		i := j.i
+		var res map[string]any
 		switch v.Mode {
 		case "hash":
 			orig := build(v.G)
@@ -811,7 +828,7 @@ func main() {
 					out[k].Tg = &tg
 				}
 			}
-			w.Emit(map[string]any{"i": i, "obs": map[string]any{"trs": out}})
+			res = map[string]any{"i": i, "obs": map[string]any{"trs": out}}
 		case "dup":
 			r := startDup(v.G, len(v.Script) == 0 || *full)
 			for _, s := range v.Script {
@@ -820,14 +837,40 @@ func main() {
 				}
 				r.step(s)
 			}
-			w.Emit(map[string]any{"i": i, "obs": r.obs})
+			res = map[string]any{"i": i, "obs": r.obs}
 		default:
-			return fmt.Errorf("unknown mode %q", v.Mode)
+			bad.Store(fmt.Sprintf("vector %d: unknown mode %q", i, v.Mode))
+			return
 		}
+		mu.Lock()
+		w.Emit(res)
+		mu.Unlock()
+	}
+	for k := 0; k < *workers; k++ {
+		wg.Add(1)
+		go func() {
+			defer wg.Done()
+			for j := range jobs {
+				if *workers == 1 {
+					mark(j.i)
+				} else {
+					started.Store(time.Now().UnixNano()) // some vector finished recently: not hanging
+				}
+				eval(j)
+			}
+		}()
+	}
+	err = vio.ReadVectors(func(i int, raw json.RawMessage) error {
+		jobs <- job{i, raw}
 		return nil
 	})
+	close(jobs)
+	wg.Wait()
 	if err != nil {
 		vio.Die("%v", err)
+	}
+	if m := bad.Load(); m != nil {
+		vio.Die("%v", m)
 	}
 	if *nrand > 0 {
 		random(w, rand.New(rand.NewSource(*vio.Seed)), *nrand)
